@@ -212,6 +212,9 @@ def gen_def(rng):
             s["g"] = "relationoverride"
         if rng.random() < 0.25:
             s["nothing"] = None  # a literal None is an ordinary attribute value
+        if rng.random() < 0.2:
+            s["size"] = (480, 640)  # literal tuples / lists are ordinary attribute values
+            s["tags"] = ["x", "y"]
         if rng.random() < 0.15:
             s["zero"] = 0
             s["empty"] = ""
@@ -241,11 +244,17 @@ def gen_def(rng):
 
 
 def describe(sd):
+    """Printable, complete image of a structure definition (every level of nesting, dict order included)."""
     def val(v):
-        return f"<{type(v).__name__} {getattr(v, '__dict__', '')}>" if not isinstance(v, (str, int, float, bool, type(None))) else v
+        if isinstance(v, dict):
+            return {repr(k): val(x) for k, x in v.items()}
+        if isinstance(v, (list, tuple)):
+            return [type(v).__name__] + [val(x) for x in v]
+        if isinstance(v, (str, int, float, bool, type(None))):
+            return v
+        return f"<{type(v).__name__} {sorted((k, repr(x)) for k, x in getattr(v, '__dict__', {}).items())}>"
 
-    return {k: ({kk: ({k3: val(v3) for k3, v3 in vv.items()} if isinstance(vv, dict) else val(vv)) for kk, vv in v.items()} if isinstance(v, dict) else v)
-            for k, v in sd.items()}
+    return val(sd)
 
 
 def check_tree(tree, sd, typed, bad, res):
